@@ -101,7 +101,7 @@ where
     ) -> bool {
         while let Some(node) = queue.pop() {
             let node = node.0;
-            for edge in node.iter_out() {
+            for edge in node.iter_in() {
                 let edge = edge.reverse();
                 if self.method.exec(&edge) {
                     let v = edge.1.clone();
